@@ -70,9 +70,9 @@ def cfgStep (s : CfgSt) : String → String → Option (Option CfgSt)
   | "assign", "config_str = config.read()" => some (some s)
   | "import", "import yaml" => some (some s)
   | "assign", "config = yaml.safe_load(config_str)" => some (some s)
-  | "raise", "raise ValueError(f'Error parsing yaml file: {e}') from e" => some none      -- only ever in a branch not taken
+  | "raise", "raise ValueError(f\"Error parsing yaml file: {e}\") from e" => some none      -- only ever in a branch not taken
   | "assign", "config = dict(groups=config)" => some (some { s with cfg := .grouped [] (cfgGroups s.cfg) })
-  | "raise", "raise TypeError(f'Not a valid config format: {type(config)}')" => some none
+  | "raise", "raise TypeError(f\"Not a valid config format: {type(config)}\")" => some none
   | "assign", "global_params = ['seed', 'columns']" => some (some { s with globalParams := ["seed", "columns"] })
   | "assign", "new_config = {k: v for k, v in config.items() if k in global_params}" =>
     some (some { s with newGlobals := (cfgKeys s.cfg).filter (fun k => s.globalParams.contains k) })
@@ -83,7 +83,7 @@ def cfgStep (s : CfgSt) : String → String → Option (Option CfgSt)
   | "assign", "necessary = ['date', 'location', 'num']" => some (some { s with necessary := ["date", "location", "num"] })
   | "assign", "not_present = [[k for k in necessary if k not in params] for params in config['groups']]" =>
     some (some { s with notPresent := (cfgGroups s.cfg).map (fun g => s.necessary.filter (fun k => !g.keys.contains k)) })
-  | "assign", "messages = [', '.join(p) + (f' in group {i}' if len(config['groups']) > 1 else '') for i, p in enumerate(not_present) if p]" => some (some s)
+  | "assign", "messages = [', '.join(p) + (f\" in group {i}\" if len(config['groups']) > 1 else '') for i, p in enumerate(not_present) if p]" => some (some s)
   | "assign", "msg = '\\n  and '.join(messages)" => some (some s)
   | "raise", "raise ValueError('Missing parameters: ' + msg)" => some none
   | "expr", "np.array(g['date']).astype('datetime64')" => some (some s)
